@@ -17,6 +17,11 @@ pub struct ClientSpec {
     pub start_tick: u16,
     pub echoes: u8,
     pub echo_size: u16,
+    /// after Connect the server pushes this many Reliable packets of `bulk_size` bytes to the client at once
+    #[serde(default)]
+    pub bulk: u8,
+    #[serde(default)]
+    pub bulk_size: u16,
 }
 
 #[derive(Clone, Debug, Serialize, Deserialize)]
@@ -91,8 +96,10 @@ fn client_strategy() -> impl Strategy<Value = ClientSpec> {
         0u16..60,
         0u8..12,
         5u16..3000,
+        prop_oneof![2 => Just(0u8), 1 => 1u8..60],
+        prop_oneof![Just(1448u16), Just(4000u16), 5u16..6000],
     )
-        .prop_map(|(cfg, (l0, l1), (f0, f1), start_tick, echoes, echo_size)| ClientSpec { cfg, latency_us: [l0, l1], fates: [f0, f1], start_tick, echoes, echo_size })
+        .prop_map(|(cfg, (l0, l1), (f0, f1), start_tick, echoes, echo_size, bulk, bulk_size)| ClientSpec { cfg, latency_us: [l0, l1], fates: [f0, f1], start_tick, echoes, echo_size, bulk, bulk_size })
 }
 
 fn forge_strategy() -> impl Strategy<Value = Forge> {
@@ -176,7 +183,7 @@ impl Check for C07 {
     }
 
     fn rule(&self) -> String {
-        "case = World with a real Server and 1-4 (quick) real Clients whose configurations are generated independently (compatible or not), each on its own link with per-datagram fates for the handshake frames (delay up to 3 s, drop, duplicate up to 5 s apart, corrupt), starting at generated ticks (simultaneous handshakes), plus forged handshake / disconnect frames injected at generated moments with spoofed source addresses (a client's address towards the server, the server's address towards a client) carrying random nonces, genuine nonces +-1, the genuine current nonce, or the nonce of an earlier attempt. After Connect each client runs an ordered echo stream through the server. Monitor oracle over wire and events: server Connect(a) only after an ACK from a carrying the nonce of the latest SYN-ACK sent to a was delivered; client Connect only after a SYN-ACK echoing its SYN nonce was delivered; at most one Connect per client and per server-side connection; first data frame ids equal the advertised nonces; refusals carry the error the documented rule demands and the client reports the same error; no Error event on a client that has connected unless it is a Timeout; echo streams arrive in order without gaps for Reliable packets; bytes per second on the wire stay within min(local max_send_rate, peer max_receive_rate). Non-trivial = at least one handshake frame was lost, duplicated, corrupted or forged. Distinct = distinct serialised case.".into()
+        "case = World with a real Server and 1-4 (quick) real Clients whose configurations are generated independently (compatible or not), each on its own link with per-datagram fates for the handshake frames (delay up to 3 s, drop, duplicate up to 5 s apart, corrupt), starting at generated ticks (simultaneous handshakes), plus forged handshake / disconnect frames injected at generated moments with spoofed source addresses (a client's address towards the server, the server's address towards a client) carrying random nonces, genuine nonces +-1, the genuine current nonce, or the nonce of an earlier attempt. After Connect each client runs an ordered echo stream through the server, and the server may push a burst of Reliable packets larger than the client's advertised receive allocation. Monitor oracle over wire and events: server Connect(a) only after an ACK from a carrying the nonce of the latest SYN-ACK sent to a was delivered; client Connect only after a SYN-ACK echoing its SYN nonce was delivered; at most one Connect per client and per server-side connection; first data frame ids equal the advertised nonces; refusals carry the error the documented rule demands and the client reports the same error; no Error event on a client that has connected unless it is a Timeout; echo streams arrive in order without gaps for Reliable packets; bytes per second on the wire stay within min(local max_send_rate, peer max_receive_rate); the bytes the server has outstanding towards a client (fragment-rounded, judged from the wire and the acks delivered) never exceed the max_receive_alloc that client advertised. Non-trivial = at least one handshake frame was lost, duplicated, corrupted or forged. Distinct = distinct serialised case.".into()
     }
 
     fn assumptions(&self) -> Vec<String> {
@@ -199,6 +206,8 @@ impl Check for C07 {
         let mut connected_at: Vec<Option<u16>> = vec![None; n];
         let mut sent_echo: Vec<u32> = vec![0; n];
         let mut recv_echo: Vec<u32> = vec![0; n];
+        let mut bulk_sent: Vec<u32> = vec![0; n];
+        let mut bulk_recv: Vec<u32> = vec![0; n];
         let mut forged = 0u32;
         let mut forged_current_ack: std::collections::HashSet<SocketAddr> = std::collections::HashSet::new();
         let mut forged_current_error: std::collections::HashSet<SocketAddr> = std::collections::HashSet::new();
@@ -285,10 +294,27 @@ impl Check for C07 {
             // server: echo everything back on the same channel, reliably
             let sev = w.step_server();
             for e in sev {
-                if let SEv::Receive(a, data) = e {
-                    if let Some(ci) = w.addr_to_client.get(&a).copied() {
-                        w.server_send(ci, data.to_vec(), 1, 3);
+                match e {
+                    SEv::Receive(a, data) => {
+                        if let Some(ci) = w.addr_to_client.get(&a).copied() {
+                            w.server_send(ci, data.to_vec(), 1, 3);
+                        }
                     }
+                    SEv::Connect(a) => {
+                        // bulk push: exercises the allocation limit the client advertised
+                        if let Some(ci) = w.addr_to_client.get(&a).copied() {
+                            if let Some(k) = ci_of.iter().position(|x| *x == Some(ci)) {
+                                let size = (c.clients[k].bulk_size as usize).min(c.server.ep.max_packet_size as usize).max(5);
+                                if size <= c.server.ep.max_packet_size as usize {
+                                    for j in 0..c.clients[k].bulk {
+                                        w.server_send(ci, world_payload(c.seed, 150, j as u32, size), 2, 3);
+                                    }
+                                    bulk_sent[k] = c.clients[k].bulk as u32;
+                                }
+                            }
+                        }
+                    }
+                    _ => {}
                 }
             }
             w.flush_server();
@@ -302,6 +328,9 @@ impl Check for C07 {
                                 return CaseResult::fail("oracle:c07:client_connect_twice", format!("client {k} reported Connect a second time at tick {tick}"));
                             }
                             connected_at[k] = Some(tick);
+                        }
+                        CEv::Receive(data) if parse_world_payload(&data).map_or(false, |p| p.0 == 150) => {
+                            bulk_recv[k] += 1;
                         }
                         CEv::Receive(data) => match parse_world_payload(&data) {
                             Some((stream, idx)) if stream == k as u8 && idx == recv_echo[k] && data[..] == world_payload(c.seed, stream, idx, echo_len(c, k))[..] => {
@@ -433,6 +462,48 @@ impl Check for C07 {
                                 return CaseResult::fail("oracle:c07:server_start_sequence", format!("server's first data frame to client {k} has id {} but its SYN-ACK advertised nonce {}", df.sequence_id, snonce));
                             }
                         }
+                    }
+                }
+            }
+            // negotiated allocation: what the server has outstanding towards this client never exceeds the
+            // max_receive_alloc the client advertised (fragment-rounded), judged from the wire alone
+            if connected && server_connects.get(&a).copied().unwrap_or(0) == 1 {
+                let sconn_seq = w.server_events.iter().find(|(_, _, e)| matches!(e, SEv::Connect(x) if x == &a)).map(|p| p.0).unwrap_or(0);
+                if let Some(snonce) = obs.server_synack.get(&a).and_then(|v| v.iter().filter(|p| p.1 < sconn_seq).last()).map(|p| p.0) {
+                    let limit = crate::props::c06::ceil_frag(c.clients[k].cfg.to_endpoint().max_receive_alloc.min(u32::MAX as usize)) as u64;
+                    let mut tr = crate::sim::wiremodel::OutstandingTracker::new(snonce);
+                    // merge: data frames emitted by the server towards a (wire order) and acks from a delivered to the server
+                    let mut evs: Vec<(u64, bool, usize)> = Vec::new();
+                    for (i, r) in w.wire.iter().enumerate() {
+                        if r.from == w.server_addr && r.to == a && r.bytes.first() == Some(&10) {
+                            evs.push((r.seq, true, i));
+                        }
+                    }
+                    for (i, d) in w.delivered.iter().enumerate() {
+                        if d.from == a && d.to == w.server_addr && d.bytes.first() == Some(&12) {
+                            evs.push((d.seq, false, i));
+                        }
+                    }
+                    evs.sort();
+                    for (_, is_data, i) in evs {
+                        if is_data {
+                            if let Some(Frame::DataFrame(df)) = Frame::read(&w.wire[i].bytes) {
+                                for dg in df.datagrams.iter() {
+                                    let (count, total) = tr.on_datagram(dg.sequence_id, dg.fragment_id_last, dg.data.len() as u32);
+                                    if total > limit || count > 4096 {
+                                        return CaseResult::fail(
+                                            "oracle:c07:negotiated_allocation_not_respected",
+                                            format!("the server has {total} fragment-rounded bytes in {count} packets outstanding towards client {k}, which advertised max_receive_alloc = {} (rounded {limit}); client cfg {:?}", c.clients[k].cfg.max_receive_alloc, c.clients[k].cfg),
+                                        );
+                                    }
+                                }
+                            }
+                        } else if let Some(Frame::AckFrame(af)) = Frame::read(&w.delivered[i].bytes) {
+                            tr.on_ack_base(af.packet_window_base_id);
+                        }
+                    }
+                    if bulk_sent[k] > 0 {
+                        classes.push("bulk_push_checked");
                     }
                 }
             }
